@@ -267,7 +267,13 @@ def _run_ids(sh, params, bulk, nb):
         # ---- SET (two or three sets in a file) ------------------------------------------------
         try:
             setid = int(r.integers(1, 10 ** int(r.integers(1, 9))))
-            ml = [72, 72, 72, 60, 80][int(r.integers(0, 5))]
+            # (short legal line lengths push the whole list off the "SET n =" header line)
+            ml = [72, 72, 72, 60, 80, 40, 24, 20][int(r.integers(0, 8))]
+            # one item ("a THRU b, ") must fit on a line: a shorter limit makes the text
+            # wrapper cut numbers in two, which is the caller's error, not a round trip
+            longest = 2 * len(str(max(list(cont) + [1]))) + 8
+            if ml < longest:
+                ml = 72
             ids2 = sorted(_idlist(r, IDKINDS[int(r.integers(0, len(IDKINDS)))]))
             f = io.StringIO()
             f.write("TITLE = check\n")
@@ -359,6 +365,19 @@ def _run_tables(sh, params, bulk, nb):
                 d = _tvals(r, npts, dl, form)
                 if r.random() < 0.5:
                     t = np.sort(t)
+                u = r.random()
+                if u < 0.2:
+                    # exact zeros are data, not padding: a curve that ends (or starts)
+                    # at the origin, a zero ordinate in the middle
+                    t[-1] = 0.0
+                    d[-1] = 0.0
+                    if u < 0.07 and npts > 1:
+                        t[0] = d[0] = 0.0
+                    sh.count("cell:table:ends-at-origin")
+                elif u < 0.3:
+                    d[int(r.integers(0, npts))] = 0.0
+                    if r.random() < 0.5:
+                        d[-1] = 0.0
                 tid = tid0 + k
                 title = None if r.random() < 0.5 else f"table {tid}, with a comma"
                 wide = len(form.format(1, 1)) == 32
